@@ -5,6 +5,7 @@ from engine import site as engine_site
 
 CONFIGS = ['prod']
 EXPLANATION = (
+    "PURE: no operation of the set or of its version vectors lets an ambient reading (wall clock, monotonic clock, randomness, environment, thread / process id — directly or through a workspace helper that returns one) decide a branch, a returned value or a stored value: the outcome is a function of the set and the operation (call graph from every method of OrSWotSet / NodeVersions + derived-from relation per body; the crate's own wall-clock helper is the positive control). VSEM also interprets arithmetic done directly on the PACKED word of a stamp (word - k, checked / saturating) against the layout HLCTimestamp::new really packs: k must be the forgiveness seconds shifted to the seconds field. "
     'SEM (primary): the per-key transfer function of OrSWotSet::merge, computed by abstract interpretation over order types for all 19 abstract inputs and '
     "every answer of the version gates, equals the last-write-wins join (insert wins a tie) with the observed-remove gates, and every path merges the peer'"
     's version stamps; VSEM: the version vectors keep the newer stamp per (source, origin) and recompute the purge cut-off. Structural fallback: '
@@ -18,6 +19,9 @@ ASSUMPTIONS = ['derived Ord on HLCTimestamp is the packed-word order (checked un
 
 def check(ctx):
     facts = ctx.facts('prod')
+    # PURE (round 8, C04h: the mutators dropped operations stamped too far ahead of the replica's wall clock): set operations read no ambient input
+    import purity
+    purity.check_pure_core(ctx, facts, 'C03.PURE')
     m = facts.body('datacake_crdt::orswot::OrSWotSet::merge')
     nm = facts.body('datacake_crdt::orswot::NodeVersions::merge')
     if m is None or nm is None:
